@@ -61,6 +61,21 @@ def run(ctx):
                         break
                 if failed:
                     break
+            if got.get("tree") is not None and cls == "block" and not failed:
+                # per file: a file that restores differently (or not at all) is NAMED in an error, not merely accompanied by one
+                errtext = json.dumps(got.get("monitor_errors") or []) + json.dumps(got.get("err") or "")
+                for pth, node in gen.tree_paths(want["tree"]):
+                    if node["k"] != "f":
+                        continue
+                    gn = damage.tree_node(got["tree"], pth)
+                    if (gn is None or gn.get("data") != node.get("data")) and json.dumps(pth)[1:-1] not in errtext:
+                        ctx.oracle_fail("damage/file-altered-without-its-own-error", f"after {kind} of {f} ({cls}), restoring b{band:04d}: {pth!r} is "
+                                        f"{'missing' if gn is None else 'restored with other bytes'} and no reported error names it "
+                                        f"({damage.errs(got)} errors reported for other files)", small)
+                        failed = True
+                        break
+                if failed:
+                    break
             if got.get("result") == "ok" or got.get("tree") is not None:
                 d = scen.first_difference(scen.strip(want.get("tree")), scen.strip(got.get("tree")))
                 if d is not None:
